@@ -517,8 +517,13 @@ package stick
 //@   asserts@parse.OpBinaryOr val: r1 == nil && istype(r0, "bool") && unbox(r0, "bool") == (truthspec(left) || truthspec(right))
 //@   asserts@parse.OpBinaryEqual val: r1 == nil && istype(r0, "bool") && unbox(r0, "bool") == (strspec(left) == strspec(right))
 //@   asserts@parse.OpBinaryNotEqual val: r1 == nil && istype(r0, "bool") && unbox(r0, "bool") == !(strspec(left) == strspec(right))
-//@   asserts@parse.OpBinaryStartsWith val: r1 == nil && istype(r0, "bool")
-//@   asserts@parse.OpBinaryConcat val: r1 == nil && istype(r0, "string") && len(unbox(r0, "string")) == len(strspec(left)) + len(strspec(right))
+//@   asserts@parse.OpBinaryStartsWith val: r1 == nil && istype(r0, "bool") && unbox(r0, "bool") == prefixof(strspec(left), strspec(right))
+//@   asserts@parse.OpBinaryEndsWith val: r1 == nil && istype(r0, "bool") && unbox(r0, "bool") == suffixof(strspec(left), strspec(right))
+//@   asserts@parse.OpBinaryPower val: r1 == nil && istype(r0, "float64") && unbox(r0, "float64") == pow(numspec(left), numspec(right))
+//@   asserts@parse.OpBinaryBitwiseAnd val: r1 == nil && istype(r0, "int") && unbox(r0, "int") == band(trunc(numspec(left)), trunc(numspec(right)))
+//@   asserts@parse.OpBinaryBitwiseOr val: r1 == nil && istype(r0, "int") && unbox(r0, "int") == bor(trunc(numspec(left)), trunc(numspec(right)))
+//@   asserts@parse.OpBinaryBitwiseXor val: r1 == nil && istype(r0, "int") && unbox(r0, "int") == bxor(trunc(numspec(left)), trunc(numspec(right)))
+//@   asserts@parse.OpBinaryConcat val: r1 == nil && istype(r0, "string") && unbox(r0, "string") == concat(strspec(left), strspec(right))
 //@   asserts@parse.OpBinaryFloorDiv val: r1 == nil && istype(r0, "float64") && unbox(r0, "float64") == floor(numspec(left) / numspec(right))
 //@   asserts@parse.OpBinaryModulo val: r1 == nil ==> istype(r0, "float64") && trunc(numspec(right)) != 0
 //@   asserts@parse.OpUnaryNot val: r1 == nil && istype(r0, "bool") && unbox(r0, "bool") == !truthspec(in)
